@@ -334,6 +334,29 @@ def serde_keys(ser):
     return keys
 
 
+def serde_symmetry(ctx, rule):
+    """Whatever the writer may leave out, the reader must tolerate: a key with
+    skip_serializing_if must belong to an Option field (serde reads a missing Option as None)
+    - otherwise the crate cannot decode its own output."""
+    n = 0
+    for adt in ("jsontypes::RawSourceMap", "jsontypes::RawSection", "jsontypes::RawSectionOffset", "jsontypes::FacebookScopeMapping"):
+        ser = _serialize_body(ctx.facts, adt)
+        a = ctx.facts.adts.get(adt)
+        if not ctx.check(ser is not None and a is not None, rule, adt, "derive", "%s has derived serde impls" % adt.split("::")[-1]):
+            continue
+        types = {f["name"]: f["ty"] for f in a["variants"][0]["fields"]}
+        keys = serde_keys(ser)
+        for k, v in sorted(keys.items()):
+            n += 1
+            if v["skip"]:
+                fty = types.get(v["field"], "?")
+                ctx.check(fty.startswith("core::option::Option<"), rule, adt, "skippable:%s" % k,
+                          "key %r can be left out on output only because its field is an Option (a missing key reads back as None)" % k, detail="field %s: %s" % (v["field"], fty))
+            else:
+                ctx.ok(rule, adt, "always:%s" % k, "key %r is always written" % k)
+    ctx.floor(rule, "jsontypes", "serialised keys", n, 20)
+
+
 def sections(ctx, rule):
     """C01.R5 / C03.R5 encoder half."""
     body = ctx.body(AS_RAW["index"])
